@@ -1,1 +1,2 @@
 import GqlVerif.Model.Visitor
+import GqlVerif.Spec.Walk
